@@ -47,6 +47,13 @@ func rawTerm(l *mon.Log) it {
 	}))
 }
 
+// stateless loop-containing Seq VALUES kept in package variables and started by every iterator of their kind
+var (
+	sharedCycle = seq.Loop(seq.Combine(seq.Bind(1, seq.Normal[int]), seq.Combine(seq.Bind(2, seq.Normal[int]), seq.Bind(3, seq.Normal[int]))))
+	sharedFor   = seq.For(nil, func() {}, seq.Combine(seq.Bind(7, seq.Normal[int]), seq.Bind(8, seq.Normal[int])))
+	sharedNest  = seq.Loop(seq.Combine(seq.Bind(10, seq.Normal[int]), seq.While(func() bool { return true }, seq.Bind(11, seq.Break[int]))))
+)
+
 var kinds = []kind{
 	{"Counter", func(l *mon.Log) it { return gens.Counter(l, 4) }},
 	{"Fib", func(l *mon.Log) it { return gens.Fib(l) }},
@@ -61,6 +68,9 @@ var kinds = []kind{
 	{"NestedLiteral", func(l *mon.Log) it { return gens.NestedLiteral(l) }},
 	{"Chain", func(l *mon.Log) it { return gens.Chain(l, 3) }},
 	{"rawTerm", rawTerm},
+	{"sharedCycle", func(l *mon.Log) it { return seq.Start(sharedCycle) }},
+	{"sharedFor", func(l *mon.Log) it { return seq.Start(sharedFor) }},
+	{"sharedNest", func(l *mon.Log) it { return seq.Start(sharedNest) }},
 	// ONE generic generator at many element types (interfaces first: their zero values are all nil)
 	{"Each[any]", func(l *mon.Log) it {
 		return adapt[any](gens.Each(l, []any{1, "x", 3.5, nil, 5}), func(v any) int { return len(fmt.Sprint(v)) })
